@@ -53,6 +53,7 @@ class BuildMachine(Machine):
         self.memo = SimMemo()
         self.live = {}
         self.live_ncwb = {}
+        self.live_body = {}
         self.had_mix = False
         self.trace = []
 
@@ -79,6 +80,7 @@ class BuildMachine(Machine):
         self.log.install()
         self.live = {}
         self.live_ncwb = {}
+        self.live_body = {}
 
     def teardown(self):
         self.live = {}
@@ -151,6 +153,11 @@ class BuildMachine(Machine):
         n = w.randint(0, min(8, cfg["max_lines"]))
         body = []
         for i in range(n):
+            if body and w.random() < 0.15:
+                prev = [b for b in body if b[0] == "valid"]
+                if prev:
+                    body.append(["valid", w.choice(prev)[1]])  # the same member once more
+                    continue
             r = w.random()
             base = gen._base(w)
             seq = f"{(i + 1) * 10} " if platform == "nxos" and w.random() < 0.4 else ""
@@ -187,6 +194,12 @@ class BuildMachine(Machine):
         if target in self.live and s.random() < 0.4:
             via = "setter"
             max_ncwb = self.live_ncwb.get(target, 16)
+            if target in self.live_body and s.random() < 0.35:
+                # the text the object was built from, assigned again after an in-place change
+                return dict(op="build", target=target, via="setter_same", platform=platform,
+                            lines=self.live_body[target], fail_at=None, fault_mode="raise",
+                            max_ncwb=max_ncwb, mutate=s.choice(["pop", "reverse", "append",
+                                                                "seq", "clear"]))
         if target in ("AddrGroup", "AddrGroupItems"):
             body = self._ag_body(w, platform)
         else:
@@ -237,6 +250,7 @@ class BuildMachine(Machine):
         self._walk(op, body, obj, recs)
         if target in ("Acl", "AceGroup", "AddrGroup"):
             self.live[target] = obj
+            self.live_body[target] = [[k, t] for k, t in op["lines"]]
             if via == "ctor":
                 self.live_ncwb[target] = op["max_ncwb"]
         return "ok"
@@ -244,6 +258,25 @@ class BuildMachine(Machine):
     def _construct(self, op, body):
         target, platform, via = op["target"], op["platform"], op["via"]
         texts = [t for _, t in body]
+        if via in ("setter", "setter_same") and target not in self.live:
+            via = "ctor"  # ops are total: without a live object the text is simply constructed
+        if via == "setter_same" and target in self.live:
+            obj = self.live[target]
+            how = op.get("mutate")
+            try:
+                if how == "pop" and obj.items:
+                    obj.items.pop()
+                elif how == "reverse":
+                    obj.items.reverse()
+                elif how == "append" and obj.items:
+                    obj.items.append(obj.items[0])
+                elif how == "seq" and obj.items:
+                    obj.items[0].sequence = 7777
+                elif how == "clear":
+                    del obj.items[:]
+            except Exception:  # noqa
+                pass
+            via = "setter"
         if target == "Acl":
             head = gen.header(platform, "extended", "T1")
             text = "\n".join([head, *texts])
